@@ -99,6 +99,9 @@ func (s *PathState) Resolve(v ssa.Value) ssa.Value {
 	return v
 }
 
+// CellValue returns the value last stored into a tracked local cell on this path (nil if unknown).
+func (s *PathState) CellValue(al *ssa.Alloc) ssa.Value { return s.mem[al] }
+
 // HasEvent reports whether an event with the tag occurred on the path.
 func (s *PathState) HasEvent(tag string) bool {
 	for _, e := range s.Events {
@@ -215,17 +218,18 @@ func (s *PathState) Witness() string {
 
 // PathQuery describes one exploration.
 type PathQuery struct {
-	Fn               *ssa.Function
-	From             ssa.Instruction              // sinks, cuts and events count only after this instruction was passed (nil: from entry); facts are collected from the function entry either way
-	EventsBeforeFrom bool                         // also record events met before From
-	Sink             func(ssa.Instruction) bool   // a path ends (and is recorded) when it reaches such an instruction
-	Event            func(ssa.Instruction) string // tag instructions of interest ("" = ignore)
-	Relevant         func(cond ssa.Value) bool    // which branch conditions are recorded (nil: all)
-	Cut              func(ssa.Instruction) bool   // a path silently ends at such an instruction (not recorded)
-	Track            []ssa.Value                  // values whose per-path resolution the rule will ask for (their phis join the state key)
-	KeepLoopFacts    bool                         // do not forget loop-local facts on back edges (for single-iteration queries)
-	MaxStates        int                          // default 200000
-	Steps            int                          // out: number of (block,state) pairs visited
+	Fn                *ssa.Function
+	From              ssa.Instruction              // sinks, cuts and events count only after this instruction was passed (nil: from entry); facts are collected from the function entry either way
+	EventsBeforeFrom  bool                         // also record events met before From
+	Sink              func(ssa.Instruction) bool   // a path ends (and is recorded) when it reaches such an instruction
+	Event             func(ssa.Instruction) string // tag instructions of interest ("" = ignore)
+	Relevant          func(cond ssa.Value) bool    // which branch conditions are recorded (nil: all)
+	Cut               func(ssa.Instruction) bool   // a path silently ends at such an instruction (not recorded)
+	Track             []ssa.Value                  // values whose per-path resolution the rule will ask for (their phis join the state key)
+	ContinueAfterSink bool                         // record the state at a sink and keep walking (default: the path ends at the sink)
+	KeepLoopFacts     bool                         // do not forget loop-local facts on back edges (for single-iteration queries)
+	MaxStates         int                          // default 200000
+	Steps             int                          // out: number of (block,state) pairs visited
 }
 
 type pstate struct {
@@ -279,8 +283,10 @@ func (q *PathQuery) Run() ([]*PathState, error) {
 				rec := *st
 				rec.Sink = in
 				out = append(out, &rec)
-				ended = true
-				break
+				if !q.ContinueAfterSink || IsReturn(in) {
+					ended = true
+					break
+				}
 			}
 			if st.armed && q.Cut != nil && q.Cut(in) {
 				ended = true
